@@ -349,6 +349,13 @@ void XmppSocket::processData(const QString &data)
     auto stanza = doc.documentElement().firstChildElement();
     for (; !stanza.isNull(); stanza = stanza.nextSiblingElement()) {
         Q_EMIT stanzaReceived(stanza);
+
+        // A handler may have closed the connection (e.g. after an authentication failure). What
+        // follows in the same read must not be processed any more, just like it would not be
+        // processed if it arrived in a later read.
+        if (m_socket && !isConnected()) {
+            return;
+        }
     }
 
     // process stream end
